@@ -34,6 +34,7 @@ def generate(module, cfg_template, subst, work, name, workers=1, tags=("SCRIPT",
     st = vlib.tlc_stats(out)
     if rc != 0 or not st["ok"]:
         tail = subprocess.run(["tail", "-30", out], stdout=subprocess.PIPE, text=True).stdout
+        tail = "\n".join(l[:300] for l in tail.splitlines() if not l.startswith('<<"'))
         raise vlib.Inconclusive("generation %s failed (rc=%s):\n%s" % (name, rc, tail))
     tmp = dest + ".tmp%d" % os.getpid()
     n = vlib.unwrap(out, tmp, tags=tags)
